@@ -84,7 +84,7 @@ func (propC01) Gen(seed uint64, ex map[string]bool) interface{} {
 	reg := map[[2]int]bool{}
 	for i := 0; i < nops; i++ {
 		e, p := r.N(sc.Engines), r.N(np)
-		switch c := r.N(26); {
+		switch c := r.N(27); {
 		case c < 4 || (!reg[[2]int{e, p}] && r.P(90)):
 			sc.Ops = append(sc.Ops, c01Op{K: "reg", E: e, P: p})
 			reg[[2]int{e, p}] = true
@@ -128,6 +128,9 @@ func (propC01) Gen(seed uint64, ex map[string]bool) interface{} {
 		case c < 24:
 			pr := sc.Progs[p]
 			sc.Ops = append(sc.Ops, c01Op{K: "hold", E: e, P: p, Name: pr.Templates[r.N(len(pr.Templates))].Name})
+		case c < 25:
+			// a global (re)defined in mid-history: later renders see the new value, earlier templates included
+			sc.Ops = append(sc.Ops, c01Op{K: "setglobal", E: e, Name: pick(r, []string{"g1", "gn", "late"}), Src: fmt.Sprintf("late-%d", i)})
 		default:
 			sc.Ops = append(sc.Ops, c01Op{K: "renderheld", E: e, P: p, CV: r.N(3)})
 		}
@@ -143,6 +146,7 @@ type c01Engine struct {
 	hub    *spyHub
 	base   map[*twig.Template]string // tree dump taken when the template was first seen in the cache
 	held   []c01Held                 // *Template handles obtained from Load and kept by the "application"
+	late   [][2]string               // globals (re)defined in mid-history, in order
 }
 
 type c01Held struct {
@@ -176,6 +180,9 @@ func (ce *c01Engine) pristine() (*twig.Engine, *spyHub) {
 	installSpies(e, hub)
 	if ce.debug {
 		e.SetDebug(true)
+	}
+	for _, g := range ce.late {
+		e.AddGlobal(g[0], g[1])
 	}
 	for _, n := range names {
 		e.RegisterString(n, m[n])
@@ -317,6 +324,9 @@ func (propC01) Run(scI interface{}) (o *Outcome) {
 				return fail("O1-pristine-replica", "render of a template obtained from Load differs from its source on a fresh engine",
 					fmt.Sprintf("op #%d engine %d\n held template source %q\n history engine: %s\n fresh engine:   %s", oi, op.E, tail(h.src, 300), got, want))
 			}
+		case "setglobal":
+			ce.e.AddGlobal(op.Name, op.Src)
+			ce.late = append(ce.late, [2]string{op.Name, op.Src})
 		case "gc":
 			w.GC(op.Mode)
 		case "debug":
@@ -376,7 +386,7 @@ func (propC01) Run(scI interface{}) (o *Outcome) {
 				// (the fresh process runs the uninstrumented tree with Go's own map order; since C03's fixes the
 				// engine's output no longer depends on it, so programs that consume maps are compared as well)
 				if true {
-					fresh, ok := runOneshot(&oneshotCase{Templates: ce.cur, Debug: ce.debug, Main: prMain, Ctx: pr.Ctx.Variant(op.CV)})
+					fresh, ok := runOneshot(&oneshotCase{Templates: ce.cur, Debug: ce.debug, Main: prMain, Ctx: pr.Ctx.Variant(op.CV), Late: ce.late})
 					if !ok {
 						o.Probes["o3_could_not_run"]++
 					} else {
